@@ -210,6 +210,27 @@ def load_findings():
         return json.load(f)["findings"]
 
 
+def _bounds(info, tier, mod):
+    """the check's declared bounds for this tier, plus the shared alphabets it draws on (so the evidence names them)"""
+    b = info.get("bounds", {}).get(tier, info.get("bounds", {}))
+    b = dict(b) if isinstance(b, dict) else {"bounds": b}
+    try:
+        import inspect
+        src = inspect.getsource(mod)
+        from . import scale
+        if "scale.sizes(" in src or "scale_cases" in src:
+            b["size_axis"] = scale.sizes(tier)
+        if "scale.BIG" in src:
+            b["size_axis_big"] = list(scale.BIG)
+        if "text_space" in src or "TEXTS" in src:
+            from .props import c03
+            b["text_axis"] = {"texts": len(c03.TEXTS), "unencodable_texts": len(c03.BAD_TEXTS), "raw_sequences_per_unit_size": {str(k): len(v) for k, v in c03.RAW_TEXT.items()},
+                              "encodings": c03.TEXT_ENCODINGS}
+    except Exception:
+        pass
+    return b
+
+
 def run_check(pid, modname, tier, argv=()):
     t0 = time.time()
     os.environ.setdefault("PYTHONHASHSEED", "0")
@@ -320,7 +341,7 @@ def run_check(pid, modname, tier, argv=()):
             "distinct_outcome_classes": len(total.outcomes),
             "outcomes": dict(sorted(total.outcomes.items(), key=lambda kv: -kv[1])[:40]),
             "counters": dict(total.extra),
-            "bounds": info.get("bounds", {}).get(tier, info.get("bounds", {})),
+            "bounds": _bounds(info, tier, mod),
             "caps_hit": (["VERIF_MAX_S=%s" % max_s] if capped else []),
             "trusted_base": info.get("trusted_base", []),
             "known_findings_seen": known_seen,
